@@ -788,6 +788,14 @@ func (d *lifeDriver) one(sc Obj) (err error) {
 						}
 						<-g
 					}
+					if c.Name == name && c.Hook == "customize" && t == "delete" {
+						// the customize answer held back names a related resource the instance has NOT used so far: the sync in
+						// flight subscribes to it when it goes on -- which must still be released by the stop that is waiting
+						b, _ := json.Marshal(Obj{"relatedResources": []interface{}{
+							Obj{"apiVersion": "v1", "resource": "configmaps", "namespace": lifeNS, "names": []interface{}{"rel"}},
+							Obj{"apiVersion": "verif.example/v1", "resource": "things", "namespace": lifeNS, "names": []interface{}{"no-such-thing"}}}})
+						return 200, b
+					}
 					return lifeAnswer(c, req)
 				})
 				d.poke(1000 + k)
